@@ -143,7 +143,10 @@ def hSweep (which : Nat) : Handler := fun args impl => do
       let prof := ps.toArray
       let pa := path.toArray
       let scale := ps.foldl (fun m p => fmax m (fmax p.x.abs p.y.abs)) F!(1e-300)
-      let mut rigid := true; let mut perp := true
+      let mut rigid := true; let mut perp := true; let mut twisted := true
+      -- ring k is turned about the local direction by k times the per-step twist, measured in the frame
+      -- whose x axis is `up × f` (up = +Z) and whose y axis is `f × x`
+      let ta := if closed then twist / len.toFloat else twist / (len - 1).toFloat
       for k in [0:len] do
         -- local path direction: chord between the neighbouring path points
         let prev := if k == 0 then (if closed then pa[len - 1]! else pa[0]!) else pa[k - 1]!
@@ -162,8 +165,19 @@ def hSweep (which : Nat) : Handler := fun args impl => do
           let r0 := (p.x * p.x + p.y * p.y).sqrt
           if !((r - r0).abs ≤ F!(1e-9) * (F!(1.0) + scale + mag3 pa[k]!)) then rigid := false
           if !((Pt3.dot (Pt3.sub q pa[k]!) f).abs ≤ F!(1e-9) * (F!(1.0) + scale + mag3 pa[k]!)) then perp := false
+          let sx := Pt3.cross ⟨F!(0.0), F!(0.0), F!(1.0)⟩ f
+          if sx.len > F!(1e-6) then
+            let sx := sx.normalized
+            let uy := Pt3.cross f sx
+            let rel := Pt3.sub q pa[k]!
+            let a := ta * k.toFloat
+            let wx := p.x * dcos a - p.y * dsin a
+            let wy := p.x * dsin a + p.y * dcos a
+            let tolT := F!(1e-7) * (F!(1.0) + scale + mag3 pa[k]!)
+            if !((Pt3.dot rel sx - wx).abs ≤ tolT && (Pt3.dot rel uy - wy).abs ≤ tolT) then twisted := false
       if !rigid then c5 := c5 ++ ["ring_is_not_a_rigid_copy_of_the_profile_at_its_path_point"]
       if !perp then c5 := c5 ++ ["ring_not_perpendicular_to_local_path_direction"]
+      if !twisted then c5 := c5 ++ ["ring_not_turned_by_k_times_the_per_step_twist"]
       if !closed then
         c5 := c5 ++ capOracle "start" ps (fs.take (n - 2)) 0 false
         c5 := c5 ++ capOracle "end" ps (fs.drop (fs.length - (n - 2))) ((len - 1) * n) true
